@@ -57,6 +57,47 @@ Proof.
     f_equal; ring.
 Qed.
 
+(* ---- polar / spherical conversions (include/romea_core_common/coordinates/*.hpp) ---- *)
+Lemma tie_toPolar x y :
+  src_toPolar_outputs = ["range_"; "azimut_"]%string /\ src_toPolar ROps (x, y) = toPolar ROps x y.
+Proof. split; reflexivity. Qed.
+
+Lemma tie_polarToCartesian r az :
+  src_polarToCartesian_inputs = ["arg0.azimut_"; "arg0.range_"]%string /\
+  src_polarToCartesian ROps az r = polarToCartesian ROps r az.
+Proof. split; reflexivity. Qed.
+
+(* the model answers None where the C++ divides 0/0 (range = 0) or acos is NaN; elsewhere it is the source's triple *)
+Lemma tie_toSpherical x y z :
+  src_toSpherical_outputs = ["range_"; "azimut_"; "elevation_"]%string /\
+  (let r := nsqrt ROps (x * x + y * y + z * z) in
+   nltb ROps 0 r = true -> nleb ROps (nabs ROps (z / r)) 1 = true ->
+   toSpherical ROps x y z = Some (src_toSpherical ROps (mkV3 x y z))).
+Proof.
+  split; [reflexivity|]. unfold toSpherical. cbv zeta. dict. intros H1 H2. rewrite H1, H2. reflexivity.
+Qed.
+
+Lemma tie_sphericalToCartesian r az el :
+  src_sphericalToCartesian_inputs = ["arg0.azimut_"; "arg0.elevation_"; "arg0.range_"]%string /\
+  src_sphericalToCartesian ROps az el r = sphericalToCartesian ROps r az el.
+Proof. split; reflexivity. Qed.
+
+Lemma source_tie_coordinates :
+  (forall x y, src_toPolar ROps (x, y) = toPolar ROps x y) /\
+  (forall r az, src_polarToCartesian ROps az r = polarToCartesian ROps r az) /\
+  (forall x y z, let r := nsqrt ROps (x * x + y * y + z * z) in
+     nltb ROps 0 r = true -> nleb ROps (nabs ROps (z / r)) 1 = true ->
+     toSpherical ROps x y z = Some (src_toSpherical ROps (mkV3 x y z))) /\
+  (forall r az el, src_sphericalToCartesian ROps az el r = sphericalToCartesian ROps r az el) /\
+  (src_toPolar_outputs = ["range_"; "azimut_"]%string /\ src_polarToCartesian_inputs = ["arg0.azimut_"; "arg0.range_"]%string /\
+   src_toSpherical_outputs = ["range_"; "azimut_"; "elevation_"]%string /\
+   src_sphericalToCartesian_inputs = ["arg0.azimut_"; "arg0.elevation_"; "arg0.range_"]%string).
+Proof.
+  split; [intros; apply tie_toPolar|]. split; [intros; apply tie_polarToCartesian|].
+  split; [intros x y z; exact (proj2 (tie_toSpherical x y z))|]. split; [intros; apply tie_sphericalToCartesian|].
+  repeat split.
+Qed.
+
 Lemma source_tie_euler_builders :
   (forall a, src_eulerAngleToRotation2D ROps a = eulerAngleToRotation2D ROps a) /\
   (forall e : vec3 R, src_eulerAnglesToQuaternion ROps e = eulerAnglesToQuaternion ROps e) /\
